@@ -138,8 +138,12 @@ def check_L22(ctx, rep, scope):
                                     g = _field_of(strip(q['c'])['i'], {delta_id})
                                     if g and g[1] in fields and g[1] != f:
                                         hinge = g[1]
+                                elif q.get('k') == 'if' and (nxt is q['th'] or nxt is q.get('el')):
+                                    # any other condition between the loop and the insertion: some column values of the delta are
+                                    # left out of the reverse map (e.g. "the value is a key of the map already" - under other keys only)
+                                    hinge = 'a condition (%s)' % (strip(q['c']).get('snip') or '?')[:60]
                             if hinge:
-                                rep.inst('L22', '%s: the completion of `%s` only runs when `%s` exists' % (path, f, hinge))
+                                rep.inst('L22', '%s: the completion of `%s` hinges on %s' % (path, f, hinge))
                                 continue
                             completed.add(f)
         for f in sorted(fields):
@@ -716,3 +720,40 @@ def check_L33(ctx, rep):
                      'one element that loop runs zero times and the element (a reflexive fact about an element mentioned nowhere else) is '
                      'dropped by the merge', loc=cr.loc(bind))
     return n
+
+
+# ------------------------------------------------------------------ L34
+
+def check_L34(ctx, rep, modules):
+    """the delta of the binary eqrel is `combined \\ old` on *pairs*: a read view may leave out a pair (x, y) that `old` relates
+    (`!old.contains(x, y)`, or y taken from x's old class), never everything that starts at an element `old` merely knows: when
+    the class of a known element grows, the pairs (x_old, y_new) are new. Flagged: a filter predicate of a read view that consults
+    the element registry of the old part (`old.elem_ids`) - an element-level test - instead of a pair-level one."""
+    cr = ctx.lib('ascent_byods_rels')
+    n_filters = 0
+    for path, b in sorted(cr.bodies.items()):
+        if not any(_in_scope(path, m) for m in modules) or b['name'].startswith('test'):
+            continue
+        for x, parents in walk(b['tree']):
+            if x.get('k') != 'mcall' or x['m'] not in ('filter', 'filter_map', 'skip_while', 'take_while', 'retain') or not x['a']:
+                continue
+            clo = strip(x['a'][0])
+            if clo.get('k') != 'closure':
+                continue
+            n_filters += 1
+            elem_level = None
+            for y, _ in walk(clo['b']):
+                if y.get('k') == 'field' and y['n'] == 'elem_ids':
+                    base = strip(y['e'])
+                    while base.get('k') in ('addr',) or (base.get('k') == 'unary' and base.get('op') == 'deref'):
+                        base = strip(base['e'])
+                    if base.get('k') == 'field' and base['n'] == 'old':
+                        elem_level = y
+            rep.inst('L34', '%s: %s predicate: %s' % (path, x['m'], 'ELEMENT-LEVEL test against old.elem_ids' if elem_level is not None else 'no element-level exclusion'))
+            rep.functions.add(path)
+            if elem_level is not None:
+                rep.viol('L34', path, 'element-level-exclusion',
+                         'a read view of the delta leaves out everything that starts at an element the old part already knows (`old.elem_ids`): '
+                         'the pairs (x_old, y_new) that appear when the class of a known element grows are new and must be shown', loc=cr.loc(elem_level))
+    if n_filters < 4:
+        raise Broken('L34: only %d filter predicates found in the eqrel read views (anchor lost?)' % n_filters)
